@@ -90,12 +90,42 @@ func ruleDur1(c *Ctx, r *Reporter) {
 		}
 	})
 	key := "AtomicWriteFile:"
-	if open == nil || cp == nil || rename == nil || opendir == nil {
+	// the directory fsync (open dir, sync dir) may be extracted into a helper of package dbkit: H(path) error
+	var dirHelper *ssa.Function
+	var dirHelperCall *ssa.Call
+	if opendir == nil {
+		allInstrs(fn, func(in ssa.Instruction) {
+			call, ok := in.(*ssa.Call)
+			if !ok {
+				return
+			}
+			h := call.Call.StaticCallee()
+			if h == nil || fnPkgPath(h) != pkgDbkit || h.Blocks == nil || h == fn {
+				return
+			}
+			allInstrs(h, func(x ssa.Instruction) {
+				if hc, ok := x.(*ssa.Call); ok && calleeFull(&hc.Call) == "os.Open" {
+					dirHelper, dirHelperCall, opendir = h, call, hc
+				}
+			})
+		})
+	}
+	if dirHelper != nil {
+		ok := ruleDur1DirHelper(c, r, fn, dirHelper, dirHelperCall, opendir, rename, pathParam)
+		if !ok {
+			return
+		}
+		opendir = nil
+	}
+	if open == nil || cp == nil || rename == nil || (opendir == nil && dirHelper == nil) {
 		r.bad(key+"protocol", c.pos(fn.Pos()), fmt.Sprintf("a step of the protocol is missing (OpenFile:%v io.Copy:%v Rename:%v Open(dir):%v)", open != nil, cp != nil, rename != nil, opendir != nil))
 		return
 	}
 	tempFile := tupleResult(open, 0)
-	dirFile := tupleResult(opendir, 0)
+	var dirFile ssa.Value
+	if opendir != nil {
+		dirFile = tupleResult(opendir, 0)
+	}
 	for _, s := range fileSyncs {
 		recv := resolveCell(s.Call.Args[0])
 		if recv == tempFile {
@@ -129,13 +159,18 @@ func ruleDur1(c *Ctx, r *Reporter) {
 	// rename args
 	r.check(resolveCell(rename.Call.Args[0]) == tempPath && rename.Call.Args[1] == pathParam, key+"rename args", c.pos(rename.Pos()), "Rename(temp, path)", "rename does not move the temp file onto path")
 	// directory
-	dirOK := false
-	if call, ok := opendir.Call.Args[0].(*ssa.Call); ok && calleeFull(&call.Call) == "path/filepath.Dir" && call.Call.Args[0] == pathParam {
-		dirOK = true
+	if dirHelper == nil {
+		dirOK := false
+		if call, ok := opendir.Call.Args[0].(*ssa.Call); ok && calleeFull(&call.Call) == "path/filepath.Dir" && call.Call.Args[0] == pathParam {
+			dirOK = true
+		}
+		r.check(dirOK, key+"parent dir", c.pos(opendir.Pos()), "the parent directory of path is opened for fsync", "the directory that is fsynced is not filepath.Dir(path)")
 	}
-	r.check(dirOK, key+"parent dir", c.pos(opendir.Pos()), "the parent directory of path is opened for fsync", "the directory that is fsynced is not filepath.Dir(path)")
 
 	steps := []step{{"remove stale temp", rmStale}, {"open temp", open}, {"copy", cp}, {"sync temp", fsync}, {"close temp", fclose}, {"rename", rename}, {"open dir", opendir}, {"sync dir", dirsync}}
+	if dirHelper != nil {
+		steps = steps[:6] // the two directory steps were examined inside the helper
+	}
 	for i, s := range steps {
 		if s.call == nil {
 			r.bad(key+"step "+s.name, c.pos(fn.Pos()), "step is missing")
@@ -182,6 +217,17 @@ func ruleDur1(c *Ctx, r *Reporter) {
 	for _, ret := range returnsOf(fn) {
 		if len(ret.Results) == 1 && isNilConst(retVal(ret, 0)) {
 			n++
+			if dirHelper != nil {
+				// success only behind the success edge of the helper call
+				good := false
+				for _, chk := range errChecksOf(errorResult(dirHelperCall)) {
+					if chk.OkSucc == ret.Block() || chk.OkSucc.Dominates(ret.Block()) {
+						good = true
+					}
+				}
+				r.check(good, key+"return nil", c.pos(ret.Pos()), "success is reported only after the directory fsync helper succeeded", "success can be reported before the rename is durable")
+				continue
+			}
 			good := dirsync != nil && instrDominates(dirsync, ret)
 			if good {
 				good = false
@@ -194,7 +240,96 @@ func ruleDur1(c *Ctx, r *Reporter) {
 			r.check(good, key+"return nil", c.pos(ret.Pos()), "success is reported only after the directory entry was fsynced", "success can be reported before the rename is durable")
 		}
 	}
+	if dirHelper != nil {
+		// `return helper(path)` reports success exactly when the helper does
+		for _, ret := range returnsOf(fn) {
+			if len(ret.Results) == 1 && retVal(ret, 0) == ssa.Value(dirHelperCall) {
+				n++
+				r.ok(key+"return nil", c.pos(ret.Pos()), "the result of the directory fsync helper is returned")
+			}
+		}
+	}
 	r.guard(n, 1, "`return nil` in AtomicWriteFile")
+}
+
+// ruleDur1DirHelper examines a helper H(path) error of package dbkit that opens and fsyncs the parent directory,
+// and how AtomicWriteFile calls it. Returns false when the shape is not understood (reported as violation).
+func ruleDur1DirHelper(c *Ctx, r *Reporter, fn, h *ssa.Function, hcall, opendir, rename *ssa.Call, pathParam *ssa.Parameter) bool {
+	key := "AtomicWriteFile:"
+	// the helper receives the path
+	var hp *ssa.Parameter
+	for i, a := range hcall.Call.Args {
+		if a == ssa.Value(pathParam) && i < len(h.Params) {
+			hp = h.Params[i]
+		}
+	}
+	if hp == nil {
+		r.bad(key+"parent dir", c.pos(hcall.Pos()), "the directory fsync helper is not given the path that was renamed onto")
+		return false
+	}
+	dirOK := false
+	if call, ok := opendir.Call.Args[0].(*ssa.Call); ok && calleeFull(&call.Call) == "path/filepath.Dir" && call.Call.Args[0] == ssa.Value(hp) {
+		dirOK = true
+	}
+	r.check(dirOK, key+"parent dir", c.pos(opendir.Pos()), "the parent directory of path is opened for fsync (in "+h.Name()+")", "the directory that is fsynced is not filepath.Dir(path)")
+	// sync of that handle
+	var dirsync *ssa.Call
+	dirFile := tupleResult(opendir, 0)
+	allInstrs(h, func(in ssa.Instruction) {
+		if call, ok := in.(*ssa.Call); ok && calleeFull(&call.Call) == "os.File.Sync" && resolveCell(call.Call.Args[0]) == dirFile {
+			dirsync = call
+		}
+	})
+	if dirsync == nil {
+		r.bad(key+"step sync dir", c.pos(h.Pos()), "step is missing")
+		return false
+	}
+	// inside the helper: open checked, sync after open succeeded, success only after the sync succeeded
+	okOpen := false
+	for _, chk := range errChecksOf(errorResult(opendir)) {
+		if failEdgeReturnsError(chk) && (chk.OkSucc == dirsync.Block() || chk.OkSucc.Dominates(dirsync.Block())) {
+			okOpen = true
+		}
+	}
+	r.check(okOpen, key+"step open dir:error", c.pos(opendir.Pos()), "failure edge returns a non-nil error and the sync runs only after the open succeeded", "a failed open of the directory can fall through")
+	okSync := true
+	for _, ret := range returnsOf(h) {
+		if ret.Block() == h.Recover {
+			continue
+		}
+		v := retVal(ret, 0)
+		if isNilConst(v) {
+			good := false
+			for _, chk := range errChecksOf(errorResult(dirsync)) {
+				if chk.OkSucc == ret.Block() || chk.OkSucc.Dominates(ret.Block()) {
+					good = true
+				}
+			}
+			if !good {
+				okSync = false
+			}
+		}
+	}
+	r.check(okSync, key+"step sync dir:error", c.pos(dirsync.Pos()), "the helper reports success only after the directory fsync succeeded (or returns its error directly)", "the helper can report success without a successful directory fsync")
+	// in AtomicWriteFile: after the rename succeeded, result consumed
+	dom := false
+	for _, chk := range errChecksOf(errorResult(rename)) {
+		if chk.OkSucc == hcall.Block() || chk.OkSucc.Dominates(hcall.Block()) {
+			dom = true
+		}
+	}
+	r.check(dom, key+"order rename < open dir", c.pos(hcall.Pos()), "runs only after 'rename' succeeded", "'open dir' can run although 'rename' has not (successfully) happened before it")
+	used := false
+	if refs := hcall.Referrers(); refs != nil {
+		for _, ref := range *refs {
+			switch ref.(type) {
+			case *ssa.Return, *ssa.BinOp, *ssa.Store, *ssa.Phi:
+				used = true
+			}
+		}
+	}
+	r.check(used, key+"order open dir < sync dir", c.pos(hcall.Pos()), "the helper's error is returned or tested", "the error of the directory fsync helper is dropped")
+	return true
 }
 
 // failEdgeReturnsError: all returns reachable from the failure successor (without passing the
@@ -448,6 +583,10 @@ func ruleDur4(c *Ctx, r *Reporter) {
 			n++
 			key := funcName(fn) + ":" + short
 			call, isCall := in.(*ssa.Call)
+			if !isCall && isReadOnlyHandleClose(ci) {
+				r.trivial(key+" (deferred)", c.pos(in.Pos()), "closing a handle obtained from os.Open (read-only): nothing to lose")
+				return
+			}
 			if !isCall {
 				k := funcName(fn) + "|defer " + name
 				if why, ok := allowed[k]; ok {
@@ -486,4 +625,18 @@ func ruleDur4(c *Ctx, r *Reporter) {
 	}
 	r.guard(n, 10, "error-returning calls on the persist/load path")
 	_ = types.Universe
+}
+
+// isReadOnlyHandleClose: a Close on a file that was opened with os.Open (read-only) in the same function.
+func isReadOnlyHandleClose(ci ssa.CallInstruction) bool {
+	if calleeFull(ci.Common()) != "os.File.Close" || len(ci.Common().Args) == 0 {
+		return false
+	}
+	v := resolveCell(stripValue(ci.Common().Args[0]))
+	if ex, ok := v.(*ssa.Extract); ok && ex.Index == 0 {
+		if call, ok := ex.Tuple.(*ssa.Call); ok && calleeFull(&call.Call) == "os.Open" {
+			return true
+		}
+	}
+	return false
 }
